@@ -59,6 +59,34 @@ class Model:
             raise _ConstructorRaises(cls)
         return obj
 
+    def _materialise(self, inst):  # type: ignore[no-untyped-def]
+        """A module-level object of an expression class (`TRUE = BooleanLiteral(value=True)`, `NIL = Nil()`) as a model
+        object - one per constant, built by its own constructor expression; other folded instances (the `UNDEFINED`
+        sentinel) stay what they are."""
+        from sa.consteval import Instance as _Inst
+
+        if not isinstance(inst, _Inst) or not self.ctx.repo.is_subclass(inst.cls.qualname, "jsonpath.filter.FilterExpression"):
+            return inst
+        made = self.__dict__.setdefault("_materialised", {})
+        if id(inst) in made:
+            return made[id(inst)][1]
+        folder = self.ctx.folder
+        for (mod_name, name), val in list(folder._global_cache.items()):
+            if val is inst:
+                mod = self.ctx.repo.modules.get(mod_name)
+                expr = mod.assigns.get(name) if mod is not None else None
+                if isinstance(expr, ast.Call) and not any(isinstance(a, ast.Starred) for a in expr.args) and all(k.arg for k in expr.keywords):
+                    try:
+                        args = [folder.eval_in(a, mod) for a in expr.args]
+                        kws = {k.arg: folder.eval_in(k.value, mod) for k in expr.keywords}
+                    except NotConst:
+                        return inst
+                    info = self.ctx.repo.find_method(inst.cls, "__init__")
+                    obj = self.new(inst.cls.qualname, *args, **kws) if info is not None else MObj(self, inst.cls.qualname, {})
+                    made[id(inst)] = (inst, obj)
+                    return obj
+        return inst
+
     def call_function(self, fn, args: List[object], kwargs: Optional[Dict[str, object]] = None) -> object:  # type: ignore[no-untyped-def]
         """A module-level function of the package, executed abstractly like a method (no receiver)."""
         holder = MObj(self, "$function", {})
@@ -96,7 +124,9 @@ class Model:
             return (type(a).__name__, a)
 
         key = (obj.uid, fn.qualname, tuple(keyed(a) for a in args))  # fn.qualname names the class
-        cacheable = method != "__init__" and not kwargs and all(isinstance(a, (str, int, float, bool, type(None), tuple, MObj)) for a in args)
+        # (no memo when objects carry state that calls change: a token stream, a document that is edited)
+        cacheable = (method != "__init__" and not kwargs and not self.heap and not self.exact_exceptions
+                     and all(isinstance(a, (str, int, float, bool, type(None), tuple, MObj)) for a in args))
         if cacheable and key in self.cache:
             return self.cache[key]
         if self.depth > 30:  # noqa: PLR2004
@@ -129,6 +159,19 @@ class Model:
                 env[a.arg] = default_value(d)
         ex: Explorer
 
+        def kwargs_of(e: ast.Call, env2: Dict[str, object]) -> Dict[str, object]:
+            """Keyword arguments of a call, a `**mapping` the path knows spread out (unknown: the call cannot be followed)."""
+            out_k: Dict[str, object] = {}
+            for k in e.keywords:
+                if k.arg is None:
+                    spread = ex.value(k.value, env2)
+                    if not isinstance(spread, dict) or not all(isinstance(x, str) for x in spread):
+                        raise AnalysisError(f"{self.rule}: `{ast.unparse(e)[:60]}` passes a `**` mapping that is not known")
+                    out_k.update(spread)
+                else:
+                    out_k[k.arg] = ex.value(k.value, env2)
+            return out_k
+
         def on_call(e: ast.Call, a: List[object], env2: Dict[str, object]) -> object:
             if self.hook is not None:
                 r = self.hook(e, a, env2, ex)
@@ -153,10 +196,26 @@ class Model:
                             target_cls = gv.cls.qualname
                     if target_cls is not None and isinstance(e.func, ast.Attribute):
                         via_class_method = e.func.attr
+                if target_cls is None and isinstance(e.func, ast.Attribute):
+                    # a class reached through a module (`function_extensions.Length()`)
+                    root_ = e.func
+                    while isinstance(root_, ast.Attribute):
+                        root_ = root_.value
+                    if isinstance(root_, ast.Name) and root_.id not in env2:
+                        try:
+                            gv2 = self.ctx.folder.eval_in(e.func, fn.module, fn.cls)
+                        except (NotConst, AnalysisError):
+                            gv2 = None
+                        from sa.consteval import ClassRef as _CR2
+
+                        if isinstance(gv2, _CR2) and gv2.cls.module.name.startswith("jsonpath"):
+                            target_cls = gv2.cls.qualname
                 if target_cls is not None and not any(isinstance(x, ast.Starred) for x in e.args) and all(k.arg for k in e.keywords):
-                    kwc = {k.arg: ex.value(k.value, env2) for k in e.keywords if k.arg}
+                    kwc = kwargs_of(e, env2)
                     info = self.ctx.repo.require_class(target_cls)
                     if via_class_method is None:
+                        if self.ctx.repo.find_method(info, "__init__") is None and not self.ctx.repo.is_subclass(target_cls, "Exception") and not a and not kwc:
+                            return MObj(self, target_cls, {})  # a class without a constructor of its own
                         if self.ctx.repo.find_method(info, "__init__") is not None and not self.ctx.repo.is_subclass(target_cls, "Exception"):
                             try:
                                 return self.new(target_cls, *a, **kwc)
@@ -175,29 +234,37 @@ class Model:
                 src_mod, src_name = fn.module.imports[e.func.id]
                 target = self.ctx.repo.modules.get(src_mod) or self.ctx.repo.modules.get(fn.module.name.rsplit(".", 1)[0] + "." + src_mod.lstrip("."))
                 if target is not None and (src_name or e.func.id) in target.functions:
-                    kwi = {k.arg: ex.value(k.value, env2) for k in e.keywords if k.arg}
+                    kwi = kwargs_of(e, env2)
                     ri = self.call_function(target.functions[src_name or e.func.id], list(a), kwi)
                     if ri is RAISES:
                         raise _PathRaises(self.last_raised or "callee raises")
                     return RETURNS_NONE if ri is None else ri
             if isinstance(e.func, ast.Name) and e.func.id not in env2 and e.func.id in fn.module.functions:
                 # a module-level helper of the same module
-                kwf = {k.arg: ex.value(k.value, env2) for k in e.keywords if k.arg}
+                kwf = kwargs_of(e, env2)
                 rf = self.call_function(fn.module.functions[e.func.id], list(a), kwf)
                 if rf is RAISES:
                     raise _PathRaises(self.last_raised or "callee raises")
                 return RETURNS_NONE if rf is None else rf
             if (isinstance(e.func, ast.Attribute) and isinstance(e.func.value, ast.Call) and isinstance(e.func.value.func, ast.Name)
                     and e.func.value.func.id == "super" and not e.func.value.args and fn.cls is not None and not static):
-                kw0 = {k.arg: ex.value(k.value, env2) for k in e.keywords if k.arg}
+                kw0 = kwargs_of(e, env2)
                 r0 = self.call(obj, e.func.attr, list(a), kw0, after=fn.cls.qualname)
                 if r0 is RAISES:
                     raise _PathRaises(self.last_raised or "callee raises")
                 return RETURNS_NONE if r0 is None else r0
             if isinstance(e.func, ast.Attribute) and isinstance(e.func.value, (ast.Name, ast.Attribute)):
                 base = ex.value(e.func.value, env2)
+                if self.auto_construct and isinstance(base, MObj) and not isinstance(base, ClassModel):
+                    held = base.peval_getattr(e.func.attr)
+                    if isinstance(held, ClassModel) and all(k.arg for k in e.keywords):
+                        # a class held in an attribute (`self.lexer_class(env=self)`)
+                        try:
+                            return self.new(held.cls, *a, **kwargs_of(e, env2))
+                        except _ConstructorRaises:
+                            raise _PathRaises(self.last_raised or "constructor raises") from None
                 if isinstance(base, MObj):
-                    kw = {k.arg: ex.value(k.value, env2) for k in e.keywords if k.arg}
+                    kw = kwargs_of(e, env2)
                     r = base.peval_call(e.func.attr, list(a), kw)
                     if r is RAISES:
                         raise _PathRaises(self.last_raised or "callee raises")
@@ -210,6 +277,8 @@ class Model:
         ex.call_function = lambda f_, a_: self.call_function(f_, list(a_))
         ex.exact_exceptions = self.exact_exceptions
         ex.heap = self.heap
+        if self.auto_construct:
+            ex.instance_hook = self._materialise
         self.depth += 1
         try:
             outs = ex.run(env)
@@ -293,14 +362,27 @@ class MObj(AbstractObject):
     def peval_getattr(self, name: str) -> object:
         if name in self.fields:
             return self.fields[name]
-        # a method held as a value (`decoders.append(cls._unicode_escape)`)
+        # a method held as a value (`decoders.append(cls._unicode_escape)`), a property, or - first in the MRO wins - a
+        # class-level constant (`return_type = ExpressionType.VALUE` in a subclass of a base that declares a property)
         if self.cls and not self.cls.startswith("$"):
             try:
-                info_ = self.model.ctx.repo.require_class(self.cls)
-                if self.model.ctx.repo.find_method(info_, name) is not None and name not in ("__init__",):
-                    from sa.peval import Callable_ as _Callable
+                repo_ = self.model.ctx.repo
+                info_ = repo_.require_class(self.cls)
+                for q_ in repo_.mro(info_):
+                    c_ = repo_.classes.get(q_)
+                    if c_ is None:
+                        continue
+                    if name in c_.assigns:
+                        break  # a class-level assignment: the constant path below
+                    if name in c_.methods and name != "__init__":
+                        m_ = c_.methods[name]
+                        if any(ast.unparse(d).split(".")[-1] in ("property", "cached_property") for d in m_.node.decorator_list):
+                            if type(self) is ClassModel:
+                                return UNKNOWN
+                            return self.model.call(self, name, [])
+                        from sa.peval import Callable_ as _Callable
 
-                    return _Callable("bound", name, obj=self)
+                        return _Callable("bound", name, obj=self)
             except AnalysisError:
                 pass
         # not an instance field the constructor set: a class-level constant (a table, a precedence)
@@ -328,6 +410,32 @@ class MObj(AbstractObject):
 
     def peval_call(self, method: str, args: List[object], kwargs: Dict[str, object]) -> object:
         return self.model.call(self, method, args, kwargs)
+
+    def peval_copy(self, deep: bool, memo: Optional[Dict[int, object]] = None) -> object:
+        """`copy.copy` / `copy.deepcopy` of a model object (no class of the package customises copying)."""
+        if type(self) is not MObj:
+            return UNKNOWN
+        memo = {} if memo is None else memo
+        if id(self) in memo:
+            return memo[id(self)]
+        new = MObj(self.model, self.cls, {})
+        memo[id(self)] = new
+
+        def cp(v: object) -> object:
+            if not deep:
+                return v
+            if isinstance(v, MObj):
+                return v.peval_copy(True, memo)
+            if isinstance(v, list):
+                return [cp(x) for x in v]
+            if isinstance(v, tuple):
+                return tuple(cp(x) for x in v)
+            if isinstance(v, dict):
+                return {k: cp(x) for k, x in v.items()}
+            return v
+
+        new.fields = {k: cp(v) for k, v in self.fields.items()}
+        return new
 
 
 class _ConstructorRaises(Exception):
